@@ -40,9 +40,8 @@ Definition a_step (m : bool) (it : nat) (s : ast) (e : aevent) : ast * bool :=
 Definition a_result (m : bool) (s : ast) (it : nat) : result :=
   {| r_id := a_best s; r_obj := to_user m (a_best_obj s); r_evals := a_evals s; r_iters := it |}.
 
-(* max_iter = 0: the code raises UnboundLocalError (`iteration` is bound only by the `for`) -> None *)
+(* max_iter = 0 (with `iteration = 0` bound before the `for`): the start point, 0 iterations *)
 Definition anneal (m : bool) (max_iter : nat) (u0 : Z) (evs : list aevent) : option result :=
-  if Nat.eqb max_iter 0 then None else
   match loop (a_step m) max_iter 1 (a_init m u0) evs with
   | None => None
   | Some (s, it) => Some (a_result m s it)
